@@ -73,6 +73,12 @@ def build_message(msg, me_actual, token):
         e = {"code": msg[2], "message": f"e{msg[2]}"}
         if len(msg) > 3 and msg[3] is not None:
             e["data"] = msg[3]
+        if len(msg) > 4 and msg[4] == "no-message":
+            # an error object without the (required) message member: only an object built by hand can carry one -
+            # the request must still end with the classified exception carrying the code
+            from chuk_mcp.protocol.messages.json_rpc_message import JSONRPCMessage
+            del e["message"]
+            return JSONRPCMessage(jsonrpc="2.0", id=resolve_id(msg[1], me_actual), error=e)
         return parse_message({"jsonrpc": "2.0", "id": resolve_id(msg[1], me_actual), "error": e})
     if k == "req":
         return parse_message({"jsonrpc": "2.0", "id": resolve_id(msg[1], me_actual), "method": "sampling/createMessage",
@@ -239,7 +245,39 @@ async def _scenario(sc):
         uuid.uuid4 = orig_uuid4
 
 
+class debug_logging:
+    """The harness normally disables logging (no check looks at log text).  Code that only runs when the application has
+    turned DEBUG logging on must not change what a request does either: inside this context the root logger is at DEBUG and
+    every record goes to a handler that drops it."""
+
+    def __enter__(self):
+        import logging
+        self._root = logging.getLogger()
+        self._level = self._root.level
+        self._disabled = logging.root.manager.disable
+        self._h = logging.NullHandler()
+        self._saved_handlers = list(self._root.handlers)
+        for h in self._saved_handlers:          # whatever an import configured: nothing is to be printed
+            self._root.removeHandler(h)
+        self._root.addHandler(self._h)
+        self._root.setLevel(logging.DEBUG)
+        logging.disable(logging.NOTSET)
+        return self
+
+    def __exit__(self, *a):
+        import logging
+        logging.disable(self._disabled)
+        self._root.setLevel(self._level)
+        self._root.removeHandler(self._h)
+        for h in self._saved_handlers:
+            self._root.addHandler(h)
+        return False
+
+
 def run_scenario(sc):
+    if sc.get("debug_log"):
+        with debug_logging():
+            return vrun(_scenario, sc)
     return vrun(_scenario, sc)
 
 
@@ -327,7 +365,10 @@ def observe(sc, res):
             meta = dict(want.get("_meta") or {})
             meta["progressToken"] = res["token"]
             want["_meta"] = meta
-        if (got or None) != (want or None) and got != want:
+        def strict(v):        # value AND JSON type: 1 != 1.0, 2**64 != 1.8446744073709552e+19, True != 1
+            import json as _json
+            return _json.dumps(v, sort_keys=True, default=repr)
+        if strict(got or None) != strict(want or None) and strict(got) != strict(want):
             problems.append(f"request params {got!r} != given {want!r}")
     for c in cancels:
         rid = (c.params or {}).get("requestId")
@@ -426,6 +467,7 @@ def scenario_case(sc):
             "cb_raise": sorted(sc.get("cb_raise") or ()), "params": sc.get("params"),
             **({"siblings": sc["siblings"]} if sc.get("siblings") else {}),
             **({"feeder_first": True} if sc.get("feeder_first") else {}),
+            **({"debug_log": True} if sc.get("debug_log") else {}),
             "arrivals": [[t, list(m)] for t, m in sc["arrivals"]]}
 
 
